@@ -42,7 +42,11 @@ def generate(seed: int, tier: str = "quick") -> Dict[str, Any]:
         # override focus: programs that call size() with and without a host function named size
         "size_focus": rc.random() < 0.2,
         "deep_share": rc.choice([0.0, 0.0, 0.0, 0.2]),
+        # bindings of other types than declared whose values are equal across types (true/1/1.0)
+        "type_mix": rc.random() < 0.25,
     }
+    # ... half of those runs with scalar bindings only
+    cfg["scalar_only"] = cfg["type_mix"] and rc.random() < 0.5
     fault_kinds: List[str] = []
     if cfg["fault_class"] == "faults":
         fault_kinds = [k for k in ("abort", "boom") if rc.random() < 0.7] or ["abort"]
@@ -90,7 +94,8 @@ def generate(seed: int, tier: str = "quick") -> Dict[str, Any]:
                 for _ in range(rw.choice([1, 1, 2])):
                     ops.append({"op": "V", "prog": p_op["id"],
                                 "bindings": gen.gen_bindings(rw, decls, salt=rw.randrange(0, 4),
-                                                             missing_share=rw.choice([0.0, 0.15, 0.3]))})
+                                                             missing_share=rw.choice([0.0, 0.15, 0.3]),
+                                                             type_mix=cfg["type_mix"], scalar_only=cfg["scalar_only"])})
         if abort_rate:
             for op in ops:
                 if rf.random() < abort_rate / 2:
@@ -153,9 +158,13 @@ def generate(seed: int, tier: str = "quick") -> Dict[str, Any]:
             decls = gen.decl_map(envs[p["env"]]["cfg"]["decls"])
             if p["id"] in last_bind and rw.random() < 0.2:
                 b = last_bind[p["id"]]
+            elif cfg["type_mix"] and p["id"] in last_bind and rw.random() < 0.5:
+                # the previous bindings of this program again, equal but of other types
+                b = gen.equal_variant(rw, last_bind[p["id"]])
             else:
                 b = gen.gen_bindings(rw, decls, salt=rw.randrange(0, 4),
-                                     missing_share=rw.choice([0.0, 0.15, 0.3, 0.5]))
+                                     missing_share=rw.choice([0.0, 0.15, 0.3, 0.5]),
+                                     type_mix=cfg["type_mix"], scalar_only=cfg["scalar_only"])
             last_bind[p["id"]] = b
             op = {"op": "V", "prog": p["id"], "bindings": b}
         if abort_rate and rf.random() < abort_rate:
@@ -272,7 +281,7 @@ def exec_ops(ops: List[Dict[str, Any]]) -> Dict[str, Any]:
         val: Any = None
         try:
             with tracer:
-                fp, val = kit.outcome(fn, value=(kind == "V"))
+                fp, val = kit.outcome(fn, value=(kind == "V"), detail=True)
         except SimAbort:
             rec["aborted"] = tracer.fired_site
         rec["steps"] = tracer.steps
